@@ -105,6 +105,8 @@ SIMPLE = [
     S("expr", "E({e1}, {p})"),
     S("class-global", ["class {N1}:", "    global G", "    G = E({e1}, {p})", "{n2} = G + 1"], cur="n2"),
     S("aug-walrus", "{p} += ({n1} := E({e1}, 1))", cur="n1"),
+    S("unpack-walrus", "{n1}, {n2} = ({n3} := E({e1}, {p})), E({e2}, {p})", cur="n2"),
+    S("chain-walrus", "{n1} = {n2} = ({n3} := E({e1}, {p})) + 1", cur="n2"),
     S("aug-yield", "{p} += (yield E({e1}, {p})) or 1", gen=True),
     S("assert", "assert E({e1}, {p}) != 1, E({e2}, 'boom')"),
     S("global-write", ["global G", "G = E({e1}, {p})"]),
